@@ -35,8 +35,30 @@ type ABCIApp interface {
 type Chain struct {
 	App     ABCIApp
 	ChainID string
-	TKeys   []string // transient stores reset at every block boundary
+	TKeys   []string  // transient stores reset at every block boundary
+	Rec     *Recorder // when set, every message and block boundary is logged for the conformance replay
 }
+
+// RecOp is one recorded operation of a linear execution.
+type RecOp struct {
+	Msg        sdk.Msg
+	Rejected   bool
+	Block      bool
+	Height     int64 // block that ended
+	NextTime   time.Time
+	Dumps      map[string][]KV // committed content of the compared stores after EndBlock
+	ValUpdates []abci.ValidatorUpdate
+}
+
+// Recorder logs a linear execution (fixture prefix + one trace) of one chain.
+type Recorder struct {
+	Ops     []RecOp
+	Tainted string // non-empty: the execution used a harness-only operation that has no transaction form
+	Stores  []string
+}
+
+// RecordNextProvider makes the next NewProvider attach a Recorder.
+var RecordNextProvider bool
 
 // State is one state of a chain "inside block Height, after BeginBlock": transactions can be
 // delivered, then NextBlock ends the block and begins the next one.
@@ -172,6 +194,9 @@ func (s *State) Deliver(msg sdk.Msg) (res TxResult) {
 			return TxResult{Err: err}
 		}
 	}
+	if s.C.Rec != nil {
+		defer func() { s.C.Rec.Ops = append(s.C.Rec.Ops, RecOp{Msg: msg, Rejected: res.Err != nil}) }()
+	}
 	h := s.C.App.MsgServiceRouter().Handler(msg)
 	if h == nil {
 		return TxResult{Err: fmt.Errorf("no handler for %T", msg)}
@@ -198,6 +223,9 @@ func (s *State) RunTx(f func(ctx sdk.Context) bool) (events []abci.Event, panicM
 			panicMsg = fmt.Sprintf("%v\n%s", r, debug.Stack())
 		}
 	}()
+	if s.C.Rec != nil {
+		s.C.Rec.Tainted = "harness-level transaction (RunTx)"
+	}
 	cctx, write := s.Ctx.CacheContext()
 	em := sdk.NewEventManager()
 	cctx = cctx.WithEventManager(em)
@@ -259,6 +287,13 @@ func (s *State) NextBlock(dt time.Duration, mid func(s *State, r *BlockResult)) 
 		s.Engine = ne
 	}
 	s.resetTransient()
+	if s.C.Rec != nil {
+		op := RecOp{Block: true, Height: s.Height(), NextTime: s.Time().Add(dt), ValUpdates: res.ValUpdates, Dumps: map[string][]KV{}}
+		for _, st := range s.C.Rec.Stores {
+			op.Dumps[st] = Dump(s.Ctx, s.C.App, st)
+		}
+		s.C.Rec.Ops = append(s.C.Rec.Ops, op)
+	}
 	if mid != nil {
 		mid(s, &res)
 	}
